@@ -18,7 +18,7 @@ CONSTANTS
   FocusMax = 4
   FixO1 = TRUE
   FixRetry = TRUE
-  FixRetryList = FALSE
+  FixRetryList = TRUE
   MaxTried = 64
 INVARIANTS EmitCase
 CHECK_DEADLOCK FALSE
